@@ -17,8 +17,13 @@ Rel(i, o, n) == IF n = 0 THEN "zero"
                 ELSE IF n = EffLo(i, o, D) - 1 THEN "lo-1" ELSE IF n = EffLo(i, o, D) THEN "lo"
                 ELSE IF n = EffHi(i, o, D) + 1 THEN "hi+1" ELSE IF n = EffLo(i, o, D) \div 2 THEN "half" ELSE "x4"
 
-Vec(dir, i, o, w, cache) ==
-    [dir |-> dir, inner |-> i, outer |-> o, enc |-> w.enc, ctype |-> w.ctype, short |-> Short(w), rel |-> Rel(i, o, Announced(w)),
+(* u = the settings after the hot update (= <<i, o>>: none), rs = the route takes requests in as streams *)
+Vec(dir, i, o, w, cache, u, rs) ==
+    [dir |-> dir, inner |-> i, outer |-> o, inner2 |-> u[1], outer2 |-> u[2], upd |-> u # <<i, o>>, rstream |-> rs,
+     \* what the implementation-shaped layer predicts for the requests after the hot update
+     exp2 |-> IF dir = "req" THEN L_ReqModel(u[1], u[2], D.hi, w) @@ [complete |-> TRUE, got |-> 0]
+              ELSE L_RespModel(i, o, D.hi, w) @@ [forwarded |-> TRUE],
+     stream2 |-> Streams(u[1], u[2]), enc |-> w.enc, ctype |-> w.ctype, short |-> Short(w), rel |-> Rel(i, o, Announced(w)),
      comp |-> w.comp, cache |-> cache, reqs |-> IF cache THEN LimK ELSE 1,
      stream |-> Streams(i, o), effLo |-> EffLo(i, o, D), effHi |-> EffHi(i, o, D),
      level |-> IF i # 0 THEN "inner" ELSE IF o # 0 THEN "outer" ELSE "default",
@@ -26,8 +31,10 @@ Vec(dir, i, o, w, cache) ==
              ELSE L_RespModel(i, o, D.hi, w) @@ [forwarded |-> TRUE]]
 
 Init == \E dir \in {"req", "resp"}, i \in LimInner, o \in LimOuter : \E w \in LimWires(dir, i, o) :
-            \E cache \in (IF dir = "req" THEN BOOLEAN ELSE {FALSE}) :
-                kind = dir /\ out = ToJson(Vec(dir, i, o, w, cache))
+            \E cache \in (IF dir = "req" THEN BOOLEAN ELSE {FALSE}), rs \in (IF dir = "resp" THEN BOOLEAN ELSE {FALSE}) :
+              \E u \in (IF dir = "req" THEN LimUpdates(i, o) ELSE {<<i, o>>}) :
+                /\ (u # <<i, o>> \/ rs) => (~Short(w) /\ w.ctype = SecondaryCType)
+                /\ kind = dir /\ out = ToJson(Vec(dir, i, o, w, cache, u, rs))
 Next == UNCHANGED <<out, kind>>
 Spec == Init /\ [][Next]_<<out, kind>>
 =============================================================================
